@@ -227,6 +227,8 @@ class AStr:
             return ''.join(p[1] for p in self.pieces)
         return None
 
+KEY_ORIGIN = {}      # concrete key of an enum member -> an abstract value of that member
+
 class AObj:
     def __init__(self, **attrs):
         self.attrs = dict(attrs)
@@ -900,6 +902,18 @@ class Interp:
         else:
             raise Unknown(f"statement {type(s).__name__} at line {s.lineno}")
 
+    def key_back(self, k):
+        """the abstract value a concrete dictionary key stands for (iteration, keys(), items())"""
+        if isinstance(k, bool) or k is None:
+            return k
+        if isinstance(k, int):
+            return AInt(k)
+        if isinstance(k, str) and k in KEY_ORIGIN:
+            return KEY_ORIGIN[k]          # an enum member used as a key: the member, not its name
+        if isinstance(k, tuple) and k[:1] == ('tuple',):
+            return tuple(self.key_back(x) for x in k[1:])
+        return AStr([('lit', k)])
+
     def key_of(self, k, node=None):
         if isinstance(k, AInt) and k.v is not None:
             return k.v
@@ -908,8 +922,10 @@ class Interp:
         if isinstance(k, (int, str)) or k is None:
             return k
         if isinstance(k, AOpaque) and k.what.replace('.', '').replace('_', '').isalnum() and '.' in k.what:
+            KEY_ORIGIN.setdefault(k.what, k)
             return k.what           # an enum member named in the source (PhysicalQuantities.ANGLE): a name is its own key
         if isinstance(k, AObj) and '__enum_member__' in k.attrs:
+            KEY_ORIGIN.setdefault(f"{k.attrs['__class__']}.{k.attrs['__enum_member__']}", k)
             return f"{k.attrs['__class__']}.{k.attrs['__enum_member__']}"
         if isinstance(k, (tuple, list)) or (isinstance(k, AList) and not getattr(k, 'mutable', True)):
             return ('tuple',) + tuple(self.key_of(x, node) for x in (k.items if isinstance(k, AList) else k))
@@ -921,7 +937,7 @@ class Interp:
         if isinstance(it, LazyGen):
             return it
         if isinstance(it, ADict):
-            return [AInt(k) if isinstance(k, int) else AStr([('lit', k)]) for k in it.items]
+            return [self.key_back(k) for k in it.items]
         if isinstance(it, AList):
             return list(it.items)
         if isinstance(it, (tuple, list)):
@@ -998,6 +1014,12 @@ class Interp:
             return False
         if isinstance(v, AStr) and v.literal() is not None:
             return v.literal() != ''
+        if isinstance(v, AStr):
+            # text with a piece of known positive length is not empty: a number in digits, the hex digits of at least one byte, a non-empty literal
+            if any((p[0] == 'lit' and p[1] != '') or p[0] in ('hexint', 'decint') or (p[0] == 'hexbytes' and len(p[1]) > 0) for p in v.pieces):
+                return True
+            if all(p[0] == 'hexbytes' and len(p[1]) == 0 for p in v.pieces):
+                return False
         if isinstance(v, AObj):
             return True
         if isinstance(v, AOpaque) and v.what == 'skipped call':
@@ -1900,6 +1922,15 @@ class Interp:
                 return self.isinstance_(args[0], args[1], e)
             if n == 'str' and len(args) in (2, 3) and isinstance(args[0], (AOpaque, ABytes)):
                 return args[0] if isinstance(args[0], AOpaque) else AOpaque('decoded bytes')
+            if n == 'format' and len(args) in (1, 2) and not kw and 'format' not in env:
+                spec_ = ''
+                if len(args) == 2:
+                    if not (isinstance(args[1], AStr) and args[1].literal() is not None):
+                        raise Unknown(f"format() with an abstract specification at line {e.lineno}")
+                    spec_ = args[1].literal()
+                if isinstance(args[0], AStr) and spec_ == '':
+                    return args[0]
+                return AStr(self.format(args[0], spec_))
             if n == 'str' and len(args) == 1 and not kw:
                 if isinstance(args[0], AStr):
                     return args[0]
@@ -1969,7 +2000,18 @@ class Interp:
                     return ABytes([self.int_to_byte(x) for x in self.iterate(a, e)])
                 raise Unknown(f"bytes() argument at line {e.lineno}")
             if n == 'bytearray':
-                return ABytes(args[0].items, True) if args else ABytes([], True)
+                if not args:
+                    return ABytes([], True)
+                a = args[0]
+                if isinstance(a, ABytes):
+                    return ABytes(a.items, True)
+                if isinstance(a, AList):
+                    return ABytes([self.int_to_byte(x) for x in a.items], True)
+                if isinstance(a, (tuple, list, range, LazyGen)):
+                    return ABytes([self.int_to_byte(x) for x in self.iterate(a, e)], True)
+                if isinstance(a, AInt) and a.v is not None and 0 <= a.v <= 4096 and len(args) == 1:
+                    return ABytes([('c', 0)] * a.v, True)
+                raise Unknown(f"bytearray() argument at line {e.lineno}")
             if n == 'int':
                 if len(args) == 1 and isinstance(args[0], AInt):
                     return args[0]
@@ -2016,6 +2058,8 @@ class Interp:
                     return AList([self.byte_to_int(b) for b in x.items])
                 if isinstance(x, (range, tuple, list, ADict)):
                     return AList(self.iterate(x, e))
+                if isinstance(x, LazyGen):
+                    return AList(list(self.iterate(x, e)))
             if n == 'tuple' and len(args) <= 1 and not kw and 'tuple' not in env:
                 if not args:
                     return ()
@@ -2180,9 +2224,9 @@ class Interp:
                         return args[1]
                     raise Unknown(f"pop of a missing key at line {e.lineno}")
                 if m in ('keys',):
-                    return AList([AInt(k) if isinstance(k, int) else AStr([('lit', k)]) for k in o.items])
+                    return AList([self.key_back(k) for k in o.items])
                 if m == 'items':
-                    return AList([(AInt(k) if isinstance(k, int) else AStr([('lit', k)]), v) for k, v in o.items.items()])
+                    return AList([(self.key_back(k), v) for k, v in o.items.items()])
                 if m == 'setdefault' and len(args) == 2:
                     return o.items.setdefault(self.key_of(args[0], e), args[1])
                 if m == 'values':
